@@ -262,7 +262,10 @@ class Installed:
             import apischema.serialization as SV
 
             self.obj_patches = []
-            for vis in (DV.DeserializationMethodVisitor, SV.SerializationMethodVisitor):
+            import apischema.json_schema.refs as JR
+            import apischema.json_schema.schema as JS
+
+            for vis in (DV.DeserializationMethodVisitor, SV.SerializationMethodVisitor, JR.RefsExtractor, JS.SchemaBuilder):
                 orig_obj = vis.object
 
                 def obj(self_, tp, fields, _orig=orig_obj):
